@@ -88,6 +88,13 @@ Example C04_nonvacuous_history :
   snd (step (mkCfg 1344 true true 2) s AWfhPoll) = OPoll [0].
 Proof. exact heal_example_history. Qed.
 
+(* the schedule that exposed C04-besteffort-hole-skips-sample, on the repaired code (d974049): KEEP_LAST(1), keys
+   1,2,2: the writer holds {1,3}; a late BEST_EFFORT TRANSIENT_LOCAL reader is sent DATA(1), GAP(2) and DATA(3) *)
+Example C04_best_effort_hole_repaired :
+  let s := run cf_gap init [AWrite 1 24 11; AWrite 2 24 22; AWrite 2 24 33; AMatch false true; APump] in
+  s_changes s = [mkCh 1 1 24 11; mkCh 3 2 24 33] /\ presented s = [mkCh 1 1 24 11; mkCh 3 2 24 33] /\ s_net s = [].
+Proof. exact best_effort_hole_repaired. Qed.
+
 Print Assumptions C04_volatile_no_history.
 Print Assumptions C04_match_boundary.
 Print Assumptions C04_wait_for_historical_data_sound.
